@@ -1,6 +1,6 @@
 (* C09: streaming is transparent -- results independent of I/O fragmentation and faults. *)
 From Coq Require Import List NArith Lia Bool.
-From Rpgp Require Import Base.Octets Base.Res Sym.Cfb Sym.Seipd1Machine Sym.Seipd1MachineProofs.
+From Rpgp Require Import Base.Octets Base.Res Sym.Cfb Sym.Seipd1Machine Sym.Seipd1MachineProofs Frame.Framing Frame.BodyReader Frame.BodyReaderProofs.
 From Rpgp Require Import Io.Fill Io.FillProofs Armor.Base64 Armor.LineWriter Armor.LineWriterProofs Armor.B64Reader Armor.B64ReaderProofs.
 Import ListNotations.
 Open Scope N_scope.
@@ -59,3 +59,10 @@ Theorem C09_v1_decryptor_request_independent :
       run_machine E bs sha1 mode req1 ct = run_machine E bs sha1 mode req2 ct.
 Proof. exact machine_request_independent. Qed.
 Print Assumptions C09_v1_decryptor_request_independent.
+
+(* the packet body reader: the body handed out, the way it ends and the octets left in the source
+   do not depend on the sizes the consumer asks for *)
+Theorem C09_body_reader_request_independent : forall (req1 req2 : N -> N) h r,
+  body_spec h r <> Err -> br_run req1 h r = br_run req2 h r.
+Proof. exact br_request_independent. Qed.
+Print Assumptions C09_body_reader_request_independent.
